@@ -54,6 +54,28 @@ def chk_space(c):
                 count[tuple(d)] += 1
     assert all(v == 1 for v in count.values()), 'active cells do not tile the domain exactly once'
     assert hs.total_active_cells == sum(len(a) for a in hm.active)
+    # ---- support queries against the knot-vector geometry (independent of the library's index tables): cell (k_0..k_{d-1}) lies in the
+    # support of function (j_0..j_{d-1}) iff per axis [mesh[k], mesh[k+1]] is inside [kv[j], kv[j+p+1]]
+    for lv in range(L):
+        msh = hm.meshes[lv]
+        kvs_l = msh.kvs
+
+        def geo_supp(f):
+            per_axis = []
+            for kv, j in zip(kvs_l, f):
+                mesh = kv.mesh
+                per_axis.append([k for k in range(len(mesh) - 1) if kv.kv[j] <= mesh[k] and mesh[k + 1] <= kv.kv[j + kv.p + 1]])
+            return set(itertools.product(*per_axis))
+        funcs = msh.functions()
+        gs = {f: geo_supp(f) for f in funcs}
+        for f in funcs:
+            assert set(msh.support([f])) == gs[f], 'level %d: support(%r) = %r, knot vectors say %r' % (lv, f, sorted(msh.support([f])), sorted(gs[f]))
+        cells_l = msh.cells()
+        step = max(1, len(cells_l) // 40)
+        for cell in cells_l[::step]:
+            want = {f for f in funcs if cell in gs[f]}
+            got = set(msh.supported_in([cell]))
+            assert got == want, 'level %d: supported_in(%r) = %r, knot vectors say %r' % (lv, cell, sorted(got), sorted(want))
     # ---- function invariants
     for lv in range(L):
         msh = hm.meshes[lv]
@@ -194,6 +216,14 @@ def generate(tier, rng):
         yield 'space', {'spec': dict(h, disparity=cfg['disparity'], truncate=cfg['truncate'])}
         if k % 4 == 0:
             yield 'kinds', {'spec': dict(h, disparity=cfg['disparity'], truncate=cfg['truncate'])}
+    # repeated interior knots (C^{p-m} coarse spaces, m = 2, 3): knot span k does not carry the functions k..k+p any more
+    for k in range(36 if quick else 240):
+        dim = 1 if k % 3 else 2
+        p = 2 + k % 2 if dim == 1 else [2 + k % 2, 2]
+        base = {'dim': dim, 'n': 3 if dim == 1 else 2, 'p': p, 'mult': (2 + (k % 5 == 0)) if dim == 1 else [2, 1 + k % 2]}
+        h = hgen.random_history(base, 2 + k % 2, rng, multi_level=bool(k % 2))
+        cfg = configs[k % len(configs)]
+        yield 'space', {'spec': dict(h, disparity=cfg['disparity'], truncate=cfg['truncate'])}
     # many multi-level simultaneous marks under finite disparity (1D, cheap): every marked level needs its own admissibility cascade
     for k in range(600 if quick else 3000):
         d = 1 + k % 2
